@@ -70,7 +70,19 @@ def _judge(code, res):
         if spelled.get(toks[-1], toks[-1]) not in got_h:
             return {"sig": "wrong-parameter:MAC/PRF", "detail": f"{code:04X} {name}: hash {got_h} for a name that says {toks[-1]}", "nontrivial": True,
                     "key": str(code)}
-        return {"sig": None, "nontrivial": True, "key": str(code), "labels": ["accepted-beyond-the-reference-parser (primitive names compared only)"]}
+        # ... and what the token grammar of every registered name tells without knowing the primitive: AEAD-ness (GCM / CCM / POLY1305 against
+        # CBC), the key length a numeric token states, the tag length (CCM_8: 8, other AEADs: 16)
+        aead = any(t in ("GCM", "CCM", "POLY1305", "MGM") for t in toks)
+        if "CBC" in toks or aead:
+            if bool(res["CryptoAlgo"][1]) != aead or bool(res["Mode"][1]) != aead:
+                return {"sig": "wrong-parameter:AEAD", "detail": f"{code:04X} {name}: AEAD flags {res['CryptoAlgo'][1]}/{res['Mode'][1]} for a name that says "
+                        f"{'AEAD' if aead else 'CBC'}", "nontrivial": True, "key": str(code)}
+        bits = [int(t) for t in toks[1:] if t in ("128", "256", "192")]
+        if bits and res["KeyLength"] != bits[0] // 8:
+            return {"sig": "wrong-parameter:key", "detail": f"{code:04X} {name}: key length {res['KeyLength']}", "nontrivial": True, "key": str(code)}
+        if aead and res["TagLength"] != (8 if "CCM_8" in body else 16):
+            return {"sig": "wrong-parameter:tag", "detail": f"{code:04X} {name}: tag length {res['TagLength']}", "nontrivial": True, "key": str(code)}
+        return {"sig": None, "nontrivial": True, "key": str(code), "labels": ["accepted-beyond-the-reference-parser (token grammar only)"]}
     alg, h = _names()
     bad = []
     if res["CryptoAlgo"][0] is not alg[s.alg]:
